@@ -91,6 +91,44 @@ func streamLevel(t xml.Token) string {
 	return ""
 }
 
+// NSStreams is the namespace of the defined stream error conditions.
+const NSStreams = "urn:ietf:params:xml:ns:xmpp-streams"
+
+// seSpec is the property's reading of a received stream error whose start tag is toks[i]
+// (RFC 6120 4.9): the defined condition is the child in the stream-error namespace that is not
+// <text/>; children in other namespaces are application-specific conditions and do not change
+// what the error is.  complete = the error element is closed in toks.
+func seSpec(toks []xml.Token, i int) (class string, complete bool) {
+	cond := ""
+	depth := 0
+	for _, t := range toks[i+1:] {
+		switch tt := t.(type) {
+		case xml.StartElement:
+			if depth == 0 && tt.Name.Space == NSStreams && tt.Name.Local != "text" {
+				cond = tt.Name.Local
+			}
+			depth++
+		case xml.EndElement:
+			if depth == 0 {
+				return "se:" + cond, true
+			}
+			depth--
+		}
+	}
+	return "se", false
+}
+
+// endClass refines the class of a stream-level construct at toks[i]: a received stream error
+// that is complete must be returned as that error (with the condition the peer sent).
+func endClass(c string, toks []xml.Token, i int) string {
+	if c == "se" {
+		if cl, ok := seSpec(toks, i); ok {
+			return cl
+		}
+	}
+	return c
+}
+
 // expected is what the property demands for one input.
 type expElem struct {
 	start xml.StartElement
@@ -112,7 +150,7 @@ func expect(toks []xml.Token) expectation {
 			if c == "close" {
 				ex.end = "clean"
 			} else {
-				ex.end = c
+				ex.end = endClass(c, toks, i)
 			}
 			return ex
 		}
@@ -133,7 +171,7 @@ func expect(toks []xml.Token) expectation {
 			closed := false
 			for ; j < len(toks); j++ {
 				if c := streamLevel(toks[j]); c != "" {
-					e.dirty = c
+					e.dirty = endClass(c, toks, j)
 					break
 				}
 				e.body = append(e.body, toks[j])
@@ -294,7 +332,7 @@ func (c *ctx) checkO(co caseOpt, ns string, body []byte, progs []Prog, class str
 	anyClose := closed0
 	partial := false
 	for _, p := range progs {
-		anyClose = anyClose || p.Close || p.Deadline != ""
+		anyClose = anyClose || p.Close || p.Dls() != ""
 		var w []xml.Token
 		for _, o := range p.Ops {
 			w = append(w, o.Write...)
@@ -303,6 +341,7 @@ func (c *ctx) checkO(co caseOpt, ns string, body []byte, progs []Prog, class str
 			anyClose, partial = true, true
 		}
 	}
+	anyClose = anyClose || co.opt.PreDl != ""
 	var before func(s *xmpp.Session, out *common.SafeBuffer) func()
 	if closed0 {
 		before = func(s *xmpp.Session, out *common.SafeBuffer) func() { _ = s.Close(); return nil }
@@ -315,7 +354,11 @@ func (c *ctx) checkO(co caseOpt, ns string, body []byte, progs []Prog, class str
 	res := ServeOpt(co.opt, ns, local, remote, body, progs, nil, before)
 	line := CaseLine(ns, res.LocalBare, toks, progs)
 	if anyClose {
-		line = "servex " + common.B(closed0) + strings.TrimPrefix(line, "serve")
+		cf := common.B(closed0)
+		if co.opt.PreDl != "" {
+			cf += "d" + co.opt.PreDl
+		}
+		line = "servex " + cf + strings.TrimPrefix(line, "serve")
 	}
 	pd, rd := encPends(co.pends)
 	if len(co.pends) > 0 {
@@ -397,7 +440,7 @@ func (c *ctx) checkO(co caseOpt, ns string, body []byte, progs []Prog, class str
 	if closed0 {
 		st = "closed"
 	}
-	expired := false
+	expired := ExpiredAfter(co.opt.PreDl, false)
 	for k, e := range handled {
 		if expired {
 			wantN, wantEnd = k, "deadline"
@@ -410,9 +453,8 @@ func (c *ctx) checkO(co caseOpt, ns string, body []byte, progs []Prog, class str
 		if p.Close {
 			st = "closed"
 		}
-		if p.Deadline == "past" {
-			expired = true
-		}
+		// every SetCloseDeadline call sets THE deadline: the last call of the handler decides
+		expired = ExpiredAfter(p.Dls(), false)
 		if p.Ret != "ok" {
 			wantN, wantEnd = k+1, "handler"
 			if p.Ret == "streamerr" || p.Ret == "wrapstream" {
@@ -664,6 +706,13 @@ var factKinds = []struct{ name, xml string }{
 	{"close", `</stream:stream>`},
 	{"framing-open", `<open xmlns="` + NSFraming + `"/>`},
 	{"framing-close", `<close xmlns="` + NSFraming + `"/>`},
+	// received stream errors that carry an application-specific condition (RFC 6120 4.9.4)
+	{"se-app-after", `<stream:error><conflict xmlns="` + NSStreams + `"/><replaced-by-new-login xmlns="urn:example"/></stream:error>`},
+	{"se-app-first", `<stream:error><app xmlns="urn:example"><detail>x</detail></app><host-gone xmlns="` + NSStreams + `"/></stream:error>`},
+	{"se-app-text", `<stream:error><not-authorized xmlns="` + NSStreams + `"/><text xmlns="` + NSStreams + `" xml:lang="en">bye</text><too-many xmlns="urn:example"><n>3</n><n/></too-many></stream:error>`},
+	{"se-text-first", `<stream:error><text xmlns="` + NSStreams + `">bye</text><system-shutdown xmlns="` + NSStreams + `"/></stream:error>`},
+	{"se-app-only", `<stream:error><only xmlns="urn:example"/></stream:error>`},
+	{"se-empty", `<stream:error/>`},
 }
 
 // verdictFacts runs the real reader (through real sessions) on the finite grid token kind x
@@ -791,9 +840,46 @@ var topItems = []string{
 	`</stream:stream>`,
 	`<b xmlns="urn:b"><stream:features/></b>`,
 	`<message><c xmlns="urn:c"><![CDATA[<x>]]></c></message>`,
+	`<stream:error><conflict xmlns="urn:ietf:params:xml:ns:xmpp-streams"/><replaced-by-new-login xmlns="urn:example"/></stream:error>`,
+	`<m xmlns="urn:m"><stream:error><app xmlns="urn:example"><d/></app><text xmlns="urn:ietf:params:xml:ns:xmpp-streams">t</text><reset xmlns="urn:ietf:params:xml:ns:xmpp-streams"/></stream:error></m>`,
 	`<open xmlns="` + NSFraming + `" to="example.com" version="1.0"/>`,
 	`<message id="m6"><fwd xmlns="urn:f"><close xmlns="` + NSFraming + `"/></fwd></message>`,
 }
+
+// seVariants are received stream errors: the defined condition with / without <text/>, with
+// application-specific conditions (children in another namespace) before / after / between
+// them, with nested content, named like defined elements, and degenerate shapes.
+var seVariants = func() []string {
+	c := func(n string) string { return `<` + n + ` xmlns="` + NSStreams + `"/>` }
+	txt := `<text xmlns="` + NSStreams + `" xml:lang="en">going away</text>`
+	app := `<replaced-by-new-login xmlns="urn:example"/>`
+	deep := `<quota xmlns="urn:example:q"><used unit="kb">12<!--c--></used><limit><soft/><hard>9</hard></limit>tail</quota>`
+	var out []string
+	for _, inner := range []string{
+		c("conflict") + app,
+		app + c("conflict"),
+		c("host-gone") + txt + app,
+		c("host-gone") + app + txt,
+		txt + c("system-shutdown"),
+		txt + app + c("system-shutdown"),
+		c("not-authorized") + deep,
+		deep + c("not-authorized") + deep,
+		c("policy-violation") + app + deep,
+		app,
+		app + txt,
+		c("reset") + `<text xmlns="urn:example">not the text</text>`,
+		c("reset") + `<conflict xmlns="urn:example"/>`,
+		`<see-other-host xmlns="` + NSStreams + `">other.example.net:5222</see-other-host>` + app,
+		c("undefined-condition") + ` ` + app + ` `,
+		c("conflict") + `<x:app xmlns:x="urn:example"><x:sub/></x:app>`,
+		c("conflict") + txt,
+		c("conflict"),
+		``,
+	} {
+		out = append(out, `<stream:error>`+inner+`</stream:error>`)
+	}
+	return out
+}()
 
 // Rets is every non-nil value a handler program can return: a plain error, io.EOF, a
 // stanza.Error, a stream.Error, and errors that wrap / join those sentinels (not identical to
@@ -852,7 +938,8 @@ func genElement(rnd *common.Rand, depth int, dirtyOK bool) string {
 		case k == 8 && dirtyOK:
 			sb.WriteString([]string{"<!--c-->", "<?pi d?>", `<?xml version="1.0"?>`, `<?xml-stylesheet x="y"?>`, "<!DOCTYPE q>", "<stream:features/>",
 				`<stream:error><not-authorized xmlns="urn:ietf:params:xml:ns:xmpp-streams"/></stream:error>`,
-				`<stream:stream xmlns="jabber:client" xmlns:stream="http://etherx.jabber.org/streams">`}[rnd.Intn(8)])
+				`<stream:stream xmlns="jabber:client" xmlns:stream="http://etherx.jabber.org/streams">`,
+				seVariants[rnd.Intn(len(seVariants))]}[rnd.Intn(9)])
 		default:
 			sb.WriteString("<e/>")
 		}
@@ -1027,6 +1114,87 @@ func Run(r *common.Run) error {
 	}
 	c.checkX(false, NSServer, []byte(ordinary[0]+ordinary[3]+ordinary[0]+"</stream:stream>"), []Prog{{Ret: "ok", Deadline: "future"}, {Ret: "ok", Deadline: "future"}}, "deadline-future")
 
+	// several SetCloseDeadline calls: in one handler (a deadline that has passed and then a
+	// later one, in every order), spread over the handlers of consecutive elements, and before
+	// Serve starts.  Every call sets THE deadline: a later one extends an earlier one.
+	for _, seq := range []string{"21", "12", "11", "22", "211", "121", "221", "112", "31", "13"} {
+		for cnt := 1; cnt <= 2; cnt++ {
+			for at := 0; at < cnt; at++ {
+				for ti, tail := range []string{"</stream:stream>", "<!--c--></stream:stream>", " </stream:stream>", ""} {
+					if strings.Contains(seq, "3") && (ti%2 == 1 || cnt == 2 && at == 0) {
+						continue
+					}
+					body := ""
+					for k := 0; k < cnt; k++ {
+						body += ordinary[(k+at)%len(ordinary)]
+					}
+					ps := make([]Prog, cnt)
+					for k := range ps {
+						ps[k] = progReads(k%3, "ok")
+					}
+					ps[at].DlSeq = seq
+					c.checkX(false, NSClient, []byte(body+tail), ps, "deadline-seq")
+				}
+			}
+		}
+	}
+	for _, pair := range [][2]string{{"1", "1"}, {"1", "2"}, {"2", "1"}, {"11", "1"}, {"1", "21"}, {"21", "12"}, {"21", "21"}} {
+		body := ordinary[0] + ordinary[3] + ordinary[2]
+		for _, tail := range []string{"</stream:stream>", ""} {
+			c.checkX(false, NSClient, []byte(body+tail), []Prog{{Ret: "ok", DlSeq: pair[0]}, {Ret: "ok", DlSeq: pair[1], Ops: []Op{{Read: true}}}, progReads(1, "ok")}, "deadline-seq")
+		}
+	}
+	for _, ns := range []string{NSClient, NSServer} {
+		for _, pre := range []string{"1", "2", "21", "12", "11", "22", "221", "212", "31"} {
+			for bi, body := range []string{"", ordinary[0], ordinary[3] + ordinary[0], " " + ordinary[2]} {
+				for _, tail := range []string{"</stream:stream>", "<!--c-->", ""} {
+					if strings.Contains(pre, "3") && bi%2 == 1 {
+						continue
+					}
+					ps := []Prog{progReads(1, "ok"), progReads(0, "ok")}
+					c.checkO(caseOpt{opt: Opts{FailAfter: -1, PreDl: pre}}, ns, []byte(body+tail), ps, "deadline-before")
+					if bi == 2 {
+						// ... and the handler of the first element moves it again
+						ps[0].DlSeq = []string{"1", "2", "21"}[len(pre)%3]
+						c.checkO(caseOpt{opt: Opts{FailAfter: -1, PreDl: pre}}, ns, []byte(body+tail), ps, "deadline-before")
+					}
+				}
+			}
+		}
+	}
+
+	// received stream errors of every shape (application-specific conditions, text, nested
+	// content): at top level after 0..2 ordinary elements, nested one and two levels inside an
+	// element, followed by more input or cut short; returned as that error, never seen by a
+	// handler
+	for _, ns := range []string{NSClient, NSServer} {
+		for vi, se := range seVariants {
+			for pre := 0; pre <= 2; pre++ {
+				prefix := ""
+				for k := 0; k < pre; k++ {
+					prefix += ordinary[(k+vi)%len(ordinary)]
+				}
+				for _, tail := range []string{"</stream:stream>", ordinary[0] + "</stream:stream>", ""} {
+					if ns == NSServer && (pre+vi)%2 == 0 {
+						continue
+					}
+					c.check(ns, []byte(prefix+se+tail), nil, "stream-error")
+					c.check(ns, []byte(prefix+`<message id="w1">`+se+`<body/></message>`+tail), []Prog{progReads(40, "ok"), progReads(40, "ok"), progReads(40, "ok")}, "stream-error")
+					c.check(ns, []byte(prefix+`<x xmlns="urn:x"><y>t`+se+`</y></x>`+tail), []Prog{progReads(pre, "ok"), progReads(3, "ok"), progReads(40, "ok")}, "stream-error")
+				}
+			}
+			// cut inside the error
+			c.check(ns, []byte(ordinary[0]+se[:len(se)*2/3]), nil, "stream-error")
+		}
+	}
+	for _, receive := range []bool{true, false} {
+		for _, se := range seVariants {
+			se = strings.Replace(se, "<stream:error", "<stream:error xmlns:stream='"+NSStream+"'", 1)
+			c.header(se, receive)
+			c.header(`<?xml version="1.0"?>`+se, receive)
+		}
+	}
+
 	// partial writes: a handler leaves an element open (start tag only, start tag and text,
 	// two start tags and one end tag) or writes an end tag nothing was open for; then every way
 	// the stream can end, and elements that need or attempt another write
@@ -1177,6 +1345,9 @@ func Run(r *common.Run) error {
 			ps[rnd.Intn(len(ps))].Deadline = []string{"future", "future", "past"}[rnd.Intn(3)]
 		}
 		if rnd.Chance(1, 10) && len(ps) > 0 {
+			ps[rnd.Intn(len(ps))].DlSeq = []string{"1", "2", "21", "12", "11", "212", "221"}[rnd.Intn(7)]
+		}
+		if rnd.Chance(1, 10) && len(ps) > 0 {
 			k := rnd.Intn(len(ps))
 			ps[k].Ops = append(ps[k].Ops, Op{Write: partials[rnd.Intn(len(partials))]})
 		}
@@ -1185,6 +1356,9 @@ func Run(r *common.Run) error {
 			// a handler cannot close after it wrote (it holds the output lock): Close comes first
 		}
 		co := caseOpt{closed0: rnd.Chance(1, 16), opt: Opts{FailAfter: -1}}
+		if rnd.Chance(1, 20) {
+			co.opt.PreDl = []string{"1", "2", "21", "12", "121"}[rnd.Intn(5)]
+		}
 		if rnd.Chance(1, 8) {
 			na := []string{"bound@example.org/r2", "me@example.com/x", "example.org", "b2@example.com"}[rnd.Intn(4)]
 			co.opt.Rebind = []string{"update", "header"}[rnd.Intn(2)]
@@ -1243,7 +1417,7 @@ func (c *ctx) replay(lines []string) error {
 		g := strings.Fields(lines[i-1])
 		closed0 := false
 		if len(g) >= 8 && g[1] == "servex" {
-			closed0 = g[2] == "1"
+			closed0 = strings.HasPrefix(g[2], "1")
 			g = append(g[:2], g[3:]...)
 		}
 		if len(g) >= 9 && g[1] == "servepw" {
